@@ -155,24 +155,56 @@ def projOut16 (cells : List Int) (samples : List Nat) : Int :=
 
 /-! ### the entry points, reduced to what they hand to the shared core
 
-  `opus_encode` / `opus_encode24` / `opus_encode_float` (opus_encoder.c:2523-2594) convert the caller's
-  samples to `opus_res`, then call `opus_encode_native(st, in, frame_size, data, max, lsb_depth = 16 / 24 / 24,
-  pcm, analysis_frame_size, …, downmix_int / downmix_int24 / downmix_float, …)`.  Inside,
-  `lsb_depth = IMIN(lsb_depth, st->lsb_depth)` (opus_encoder.c:1173) and the analysis reads the
-  caller's samples through the down-mix function, i.e. through `INT16TOSIG` / `INT24TOSIG` / `FLOAT2SIG`.
-  `core` stands for everything after that point: an arbitrary function of the encoder state, the
-  `opus_res` samples, the effective depth and the per-sample analysis values. -/
+  `opus_encode` / `opus_encode24` / `opus_encode_float` (opus_encoder.c, end of file) compute
+  `frame_size = frame_size_select(analysis_frame_size, st->variable_duration, st->Fs)`, convert the first
+  `frame_size*channels` of the caller's samples to `opus_res`, then call
+  `opus_encode_native(st, in, frame_size, data, max, lsb_depth = 16 / 24 / 24, pcm, analysis_frame_size,
+  0, -2, st->channels, downmix_int / downmix_int24 / downmix_float, 1)`.  Inside,
+  `lsb_depth = IMIN(lsb_depth, st->lsb_depth)` (first statement that uses it) and the analysis reads ALL
+  `analysis_frame_size` samples of the caller's buffer through the down-mix function, i.e. through
+  `INT16TOSIG` / `INT24TOSIG` / `FLOAT2SIG` (with an expert frame duration the buffer is longer than the
+  coded frame).  `CoreArgs` is the argument tuple as the shared core sees it; `core` stands for everything
+  after that point: an arbitrary function of the encoder state and of that tuple.  The correspondence suite
+  `pcm` (ops `enc16/enc24/encf`) compares the tuple with what the real entry points pass. -/
+
+/-- What `opus_encode_native` receives (besides the state and the output buffer). -/
+structure CoreArgs where
+  /-- `pcm`: `frame_size*channels` samples as `opus_res` bit patterns -/
+  res : List Nat
+  frameSize : Nat
+  /-- `IMIN(lsb_depth, st->lsb_depth)` -/
+  lsbDepth : Nat
+  /-- `analysis_pcm` seen through the `downmix` callback, sample by sample (`analysis_size*channels` values) -/
+  sig : List Nat
+  analysisSize : Nat
+  c1 : Int
+  c2 : Int
+  analysisChannels : Nat
+  floatApi : Nat
+  deriving DecidableEq, Repr
+
 section entry
 variable {St Pkt : Type}
 
-def encode16 (core : St → List Nat → Nat → List Nat → Pkt) (st : St) (lsbDepth : Nat) (pcm : List Int) : Pkt :=
-  core st (pcm.map int16ToRes) (min 16 lsbDepth) (pcm.map int16ToSig)
+def encode16 (core : St → CoreArgs → Pkt) (st : St) (stDepth channels frameSize : Nat) (pcm : List Int) : Pkt :=
+  core st { res := (pcm.take (frameSize * channels)).map int16ToRes, frameSize := frameSize,
+            lsbDepth := min 16 stDepth, sig := pcm.map int16ToSig, analysisSize := pcm.length / channels,
+            c1 := 0, c2 := -2, analysisChannels := channels, floatApi := 1 }
 
-def encode24 (core : St → List Nat → Nat → List Nat → Pkt) (st : St) (lsbDepth : Nat) (pcm : List Int) : Pkt :=
-  core st (pcm.map int24ToRes) (min 24 lsbDepth) (pcm.map int24ToSig)
+def encode24 (core : St → CoreArgs → Pkt) (st : St) (stDepth channels frameSize : Nat) (pcm : List Int) : Pkt :=
+  core st { res := (pcm.take (frameSize * channels)).map int24ToRes, frameSize := frameSize,
+            lsbDepth := min 24 stDepth, sig := pcm.map int24ToSig, analysisSize := pcm.length / channels,
+            c1 := 0, c2 := -2, analysisChannels := channels, floatApi := 1 }
 
-def encodeFloat (core : St → List Nat → Nat → List Nat → Pkt) (st : St) (lsbDepth : Nat) (pcm : List Nat) : Pkt :=
-  core st (pcm.map float2Res) (min 24 lsbDepth) (pcm.map float2Sig)
+def encodeFloat (core : St → CoreArgs → Pkt) (st : St) (stDepth channels frameSize : Nat) (pcm : List Nat) : Pkt :=
+  core st { res := (pcm.take (frameSize * channels)).map float2Res, frameSize := frameSize,
+            lsbDepth := min 24 stDepth, sig := pcm.map float2Sig, analysisSize := pcm.length / channels,
+            c1 := 0, c2 := -2, analysisChannels := channels, floatApi := 1 }
+
+/-- The guard in front of the conversion: `frame_size_select` answered `-1` (or 0) → `OPUS_BAD_ARG`, the
+    core is not reached (`opus_encode`, `opus_encode24`) or refuses as its first action (`opus_encode_float`). -/
+def entryArgs (args : Nat → CoreArgs) (frameSizeSelect : Int) : Option CoreArgs :=
+  if frameSizeSelect ≤ 0 then none else some (args frameSizeSelect.toNat)
 
 /-- `opus_decode24` (opus_decoder.c:886-921): the float decode, then `RES2INT24` per sample. -/
 def decode24Out (out : List Nat) : List Int := out.map res2Int24
@@ -183,6 +215,17 @@ def decode24Out (out : List Nat) : List Int := out.map res2Int24
 def decode16Out {Mem : Type} (clip : List Nat → Mem → List Nat × Mem) (out : List Nat) (mem : Mem) : List Int × Mem :=
   let (y, mem') := clip out mem
   (celtFloat2Int16 y, mem')
+
+/-- What the three decoder entry points pass to `opus_decode_native` and do with its output:
+    `(soft_clip flag, frame_size handed down, converted output)`.  `opus_decode`: `OPTIONAL_CLIP` = 1, then
+    `celt_float2int16`; `opus_decode24`: 0, then `RES2INT24`; `opus_decode_float`: 0, the core writes into the
+    caller's buffer.  For a real packet without FEC the frame size handed down is
+    `IMIN(frame_size, nb_samples)` in the two converting entry points and `frame_size` itself in the float one. -/
+def decodeEntry (fmt : Nat) (frameSize nbSamples : Int) (usesPacket : Bool) (out : List Nat) : Nat × Int × List Int :=
+  let fsDown := if usesPacket ∧ fmt ≠ 32 then min frameSize nbSamples else frameSize
+  if fmt = 16 then (1, fsDown, celtFloat2Int16 out)
+  else if fmt = 24 then (0, fsDown, decode24Out out)
+  else (0, fsDown, out.map Int.ofNat)
 
 end entry
 
